@@ -520,6 +520,100 @@ def check_tzx(item):
     return finish(res, st)
 
 
+def check_tzx15(item):
+    """('tzx15', sample bytes, used bits): a TZX direct recording block with symbolic T-states-per-sample and pause: every run of equal
+    sample bits is one pulse of (run length x T-states per sample), an initial high level is a zero-length first pulse, and the
+    pause is the stated number of milliseconds"""
+    _, samples, ub = item
+    st = Stats()
+    res = new_res()
+    import skoolkit.tape as tape
+    name = 'TZX direct recording block, samples %s, %d bit(s) used in the last byte' % (' '.join('%02X' % b for b in samples), ub)
+    state = {}
+
+    def fn(path):
+        tps = sym_int('tps', 1, 1000)
+        pause = sym_int('pause_ms', 0, 10000)
+        n = len(samples)
+        body = [0x15] + _words(tps, pause) + [ub, n % 256, n // 256, 0] + list(samples)
+        end, blk = tape._get_tzx_block(body, 0, 1, True, True)
+        state.update(tps=tps, pause=pause)
+        return end, len(body), blk.timings
+
+    def on(p, out):
+        res['obligations'] += 1
+        case = dict(kind='tzx15', samples=list(samples), ub=ub)
+        if isinstance(out, tuple) and out[0] == 'exception':
+            res['violations'].append(dict(key='%s:exception' % name, text='%s raises %r' % (name, out[1]), case=case))
+            return
+        end, blen, tm = out
+        bits = []
+        for j, b in enumerate(samples):
+            nb = 8 if j < len(samples) - 1 else ub
+            bits += [(b >> (7 - k)) & 1 for k in range(nb)]
+        runs = []
+        for b in bits:
+            if runs and runs[-1][0] == b:
+                runs[-1][1] += 1
+            else:
+                runs.append([b, 1])
+        want = ([0] if bits[0] else []) + [r[1] for r in runs]           # in units of tps
+        structural, diffs, names = [], [], []
+        if end != blen:
+            structural.append('block of %d bytes ends at %r' % (blen, end))
+        got = list(tm.pulses)
+        if len(got) != len(want) or any(c != 1 for c, d in got):
+            structural.append('%d pulses (%r...), expected %d' % (len(got), got[:3], len(want)))
+        else:
+            for k, ((c, d), w) in enumerate(zip(got, want)):
+                diffs.append(bv(d) != state['tps'].e * w); names.append('pulse %d is not %d sample(s) long' % (k, w))
+        diffs.append(bv(tm.pause) != state['pause'].e * 3500); names.append('pause is not the stated number of milliseconds')
+        if structural:
+            r, mod = p.check(model=True); which = structural
+        else:
+            r, mod, which = p.check_any(diffs, names)
+        if r == 'unknown':
+            res['inconclusive'].append(name); return
+        if r == 'sat':
+            case.update(tps=mod.eval(state['tps'].e, model_completion=True).as_long(), pause=mod.eval(state['pause'].e, model_completion=True).as_long())
+            res['violations'].append(dict(key='%s:%s' % (name, which[0][:40]), text='%s: %s (tps=%d, pause=%d ms)' % (name, '; '.join(which[:3]), case['tps'], case['pause']), case=case))
+            return
+        res['discharged'] += 1
+        res['nontrivial'] += 1
+
+    try:
+        explore(fn, stats=st, on_path=on, max_paths=200)
+    except Inconclusive as e:
+        res['inconclusive'].append('%s: %s' % (name, e))
+    return finish(res, st)
+
+
+def replay_tzx15(case):
+    import skoolkit.tape as tape
+    samples, ub, tps, pause = case['samples'], case['ub'], case.get('tps', 79), case.get('pause', 100)
+    body = [0x15] + _words(tps, pause) + [ub, len(samples) % 256, len(samples) // 256, 0] + list(samples)
+    try:
+        end, blk = tape._get_tzx_block(body, 0, 1, True, True)
+    except Exception as e:
+        return True, 'raises %r' % e
+    bits = []
+    for j, b in enumerate(samples):
+        nb = 8 if j < len(samples) - 1 else ub
+        bits += [(b >> (7 - k)) & 1 for k in range(nb)]
+    want = [(1, 0)] if bits[0] else []
+    run = 0
+    for k, b in enumerate(bits):
+        run += 1
+        if k + 1 == len(bits) or bits[k + 1] != b:
+            want.append((1, run * tps)); run = 0
+    bad = []
+    if list(blk.timings.pulses) != want:
+        bad.append('pulses %r, expected %r' % (list(blk.timings.pulses), want))
+    if blk.timings.pause != pause * 3500:
+        bad.append('pause %r T-states, expected %d' % (blk.timings.pause, pause * 3500))
+    return bool(bad), '; '.join(bad) or 'block parsed as specified'
+
+
 def replay_tzx(case):
     import skoolkit.tape as tape
     bid, v = case['bid'], case.get('vals') or {}
@@ -662,7 +756,7 @@ def check_files(item):
 
 
 def work(item):
-    return {'edges': check_edges, 'files': check_files, 'puls': check_puls, 'tzx': check_tzx}[item[0]](item)
+    return {'edges': check_edges, 'files': check_files, 'puls': check_puls, 'tzx': check_tzx, 'tzx15': check_tzx15}[item[0]](item)
 
 
 # ---------------------------------------------------------------------------
@@ -672,6 +766,8 @@ def replay(case):
         return replay_puls(case)
     if case['kind'] == 'tzx':
         return replay_tzx(case)
+    if case['kind'] == 'tzx15':
+        return replay_tzx15(case)
     if case['kind'] == 'files':
         if 'data' not in case:
             return False, 'no input'
@@ -794,6 +890,7 @@ def main():
         items += [('puls', (f1, f2, f3), 0) for f1 in PULS_FORMS for f2 in PULS_FORMS for f3 in PULS_FORMS]
         items += [('puls', ('count',), bits) for bits in range(1, 17)]
     items += [('tzx', bid) for bid in (0x11, 0x12, 0x13, 0x14)]
+    items += [('tzx15', (0xF0, 0x0F), 8), ('tzx15', (0x0F, 0xFF), 3), ('tzx15', (0xAA,), 5), ('tzx15', (0x00, 0x80, 0x7F), 8)]
     items += [('files', n) for n in ((1, 2) if args.tier == 'quick' else (1, 2, 3))]
     if args.only:
         items = [i for i in items if args.only in harness.item_name(i)]
